@@ -140,10 +140,19 @@ class Request(HTTPConnection):
 
         self._stream_consumed = True
         body = self._environ["wsgi.input"]
-        while True:
-            chunk = body.read(chunk_size)
+        # CONTENT_LENGTH bounds the body: a kept-alive connection holds the next
+        # request after it, and fewer bytes mean the client went away
+        remaining = self.content_length
+        while remaining is None or remaining > 0:
+            chunk = body.read(
+                chunk_size if remaining is None else min(chunk_size, remaining)
+            )
             if not chunk:
-                return
+                if remaining is None:
+                    return
+                raise HTTPException(400, content="Request body incomplete")
+            if remaining is not None:
+                remaining -= len(chunk)
             yield chunk
 
     @cached_property
